@@ -67,6 +67,9 @@ func runC08(o opts) error {
 		if r.Items == nil {
 			r.Items = []map[string]any{}
 		}
+		if r.Items == nil {
+			r.Items = []map[string]any{}
+		}
 		ev := trace.Ev{"ev": "run", "in": sc.Input(), "items": r.Items, "closed": r.Closed, "kept": r.Kept,
 			"panic": r.Panic, "hang": r.Hang, "drift": r.Drift, "early": r.EarlyEnd || sc.CloseAt >= 0, "ambig": r.Ambig}
 		sink.Put(&trace.Scenario{Ord: i, Desc: sc, Note: r.Panic + r.Hang + r.Drift, Sig: sc.Kind,
